@@ -98,7 +98,10 @@ def build(S, spec):
     W.servers = []
     W.cap = []
     for j, sv in enumerate(spec['servers']):
-        cap = vec(S, 'cap%d' % j, D)
+        if 'capacity' in sv:
+            cap = list(sv['capacity'])
+        else:
+            cap = vec(S, 'cap%d' % j, D)
         if spec.get('sym_valid_until'):
             vu = S.int('valid_until%d' % j, NOW - TSPAN, NOW + 10 * TSPAN)
         else:
@@ -120,8 +123,14 @@ def build(S, spec):
             res = a.get('reserved')
             if res == 'sym':
                 res = vec(S, 'res_' + '_'.join(a['path']), D)
-            alloc.update(res, a.get('rank'), a.get('rank_adjustment', 0),
-                         a.get('max_utilization'))
+            tagp = '_'.join(a['path'])
+            rank = a.get('rank')
+            if rank == 'sym':
+                rank = S.int('rank_' + tagp, 0, 200)
+            adj = a.get('rank_adjustment', 0)
+            if adj == 'sym':
+                adj = S.int('rankadj_' + tagp, 0, 50)
+            alloc.update(res, rank, adj, a.get('max_utilization'))
             alloc.set_traits(a.get('traits', 0))
         W.allocs[(a.get('label', '_default'),) + tuple(a['path'])] = alloc
     # instances
